@@ -557,6 +557,11 @@ func runC13(c *Ctx) {
 	// the instance whose comments are scanned is the merged one: a pull replaces the loaded instance (shared with C02/C11)
 	checkCacheMergeFold(c, "R2.6")
 	checkSingleInstance(c, newLockWorld(c.W))
+	// a stale cache file is refused: every entity in git is addressable after a restart (shared with C11)
+	checkLoadHeuristic(c)
+	checkCommentCombinedIdStable(c, "R13.8")
+	// what Resolve / ResolveComment hand out is a live instance: use refreshes its LRU position (shared with C18)
+	checkLRUAndWriteSection(c, newLockWorld(c.W))
 	checkRebuildAndCLIRemoval(c)
 	// R13.3
 	for _, t := range []string{"Id", "CombinedId"} {
